@@ -233,7 +233,8 @@ def mutate_tree(rng, tree):
         return 'wrong_element'
     if k == 'decl':
         cim[2] = [['DECLARATION', [], [['DECLGROUP', [], [
-            ['VALUE.OBJECT', [], [{'raw': rng.choice(BAD_INSTANCES + ['<INSTANCE CLASSNAME="C"/>'])}]]]]]]]
+            # a VALID declaration body in about a third of the cases (the parser accepts it, the listener must refuse it)
+            ['VALUE.OBJECT', [], [{'raw': rng.choice(BAD_INSTANCES + ['<INSTANCE CLASSNAME="C"/>'] * 12)}]]]]]]]
         return 'wrong_element'
     if k == 'dupchild':
         node = rng.choice([cim, msg, req])
